@@ -76,13 +76,13 @@ func (e *env) runRandom(j job) {
 	waitGone := func(id string, from int) bool {
 		_, ok := w.obs.WaitForFrom(from, func(m vclient.Msg) bool {
 			return m.Str("type") == "user" && m.Str("kind") == "delete" && m.Str("id") == id
-		}, 30*time.Second)
+		}, wd)
 		if !ok {
 			w.inconclusive("a disconnected member never left the group")
 		}
 		return ok
 	}
-	join := func(s *slot, ps permSet, password, group string) bool {
+	joinAs := func(s *slot, ps permSet, password, group string) bool {
 		a := s.a
 		user := "u-" + ps.name
 		if password == "" {
@@ -100,7 +100,7 @@ func (e *env) runRandom(j job) {
 			want = "refused:locked"
 		}
 		w.logf("actor %s joins %s as %s %v (model says: %s)", a.c.ID, group, user, ps.cfg, want)
-		m, ok := a.c.Join(group, user, password)
+		m, ok := join(a.c, group, user, password)
 		if !ok {
 			closed, cerr := a.c.Closed()
 			w.inconclusive(fmt.Sprintf("no reply to a join (as %s, model %s; socket closed=%v %v; last events %s)", user, want, closed, cerr, brief(news(a.c, max(0, a.c.EventCount()-4)))))
@@ -217,15 +217,15 @@ func (e *env) runRandom(j job) {
 		if !a.member {
 			switch {
 			case x < 40:
-				if !join(s, sets[r.IntN(len(sets))], "", w.g) {
+				if !joinAs(s, sets[r.IntN(len(sets))], "", w.g) {
 					return
 				}
 			case x < 48:
-				if !join(s, sets[r.IntN(len(sets))], "wrong", w.g) {
+				if !joinAs(s, sets[r.IntN(len(sets))], "wrong", w.g) {
 					return
 				}
 			case x < 52:
-				if !join(s, sets[r.IntN(len(sets))], "", "nonexistent-"+w.tag) {
+				if !joinAs(s, sets[r.IntN(len(sets))], "", "nonexistent-"+w.tag) {
 					return
 				}
 			case x < 58:
@@ -234,7 +234,7 @@ func (e *env) runRandom(j job) {
 				if !dial(s, "tgt") {
 					return
 				}
-				if !join(s, sets[r.IntN(len(sets))], "", w.g) {
+				if !joinAs(s, sets[r.IntN(len(sets))], "", w.g) {
 					return
 				}
 			case x < 94:
@@ -250,7 +250,7 @@ func (e *env) runRandom(j job) {
 			message()
 		case x < 68:
 			w.logf("actor %s leaves", a.c.ID)
-			if !a.c.Leave(w.g) {
+			if !leave(a.c, w.g) {
 				w.inconclusive("leave was not acknowledged")
 				return
 			}
@@ -270,7 +270,7 @@ func (e *env) runRandom(j job) {
 		case x < 94:
 			w.logf("helper kicks %s", a.c.ID)
 			w.hlp.Send(vclient.Msg{"type": "useraction", "kind": "kick", "source": w.hlp.ID, "dest": a.c.ID, "value": "out"})
-			deadline := time.Now().Add(30 * time.Second)
+			deadline := time.Now().Add(wd)
 			for !closedNow(a.c) && time.Now().Before(deadline) {
 				time.Sleep(2 * time.Millisecond)
 			}
